@@ -1,38 +1,182 @@
 /-
   C08 — Pseudo-TCP delivers exactly the bytes written, in order, then end-of-stream.
-  Theorems about `Nice.PTcp` (model of agent/pseudotcp.c): the ring buffers refine byte queues (what is written is what
-  is read, at the same stream positions).  The two-socket statements (N) and (E) of DESIGN section 5/C08 are decided by
-  the oracle stream of checks/C08.py on the real code, not by theorems (see `C08_*_partial` comments).
+  Theorems about `Nice.PTcp` (model of agent/pseudotcp.c): the two rings refine byte queues (what is written is what is
+  read, at the same stream positions), the sender's payload is the ring content at the segment's offset, an
+  out-of-order store never touches committed data.  The two-socket statements (N) `C08_stream_prefix` and (E)
+  `C08_eos_after_all_data` of DESIGN section 5/C08 are decided by the oracle stream of checks/C08.py on the real code;
+  their proof needs the ghost stream of DESIGN 5a piece 7, which is not built yet.
 -/
+import Nice.Proofs.PTcpRing
 import Nice.Proofs.PTcpRun
 namespace Nice.Props.C08
 open Nice.PTcp Nice.Gen Nice.Proofs.PTcp
 
-/-- **C08_blit_content.**  `memcpy` into the ring: inside the copied range the destination holds the source bytes,
-    outside it is untouched. -/
-theorem C08_blit_content (src : Array UInt8) (so : Nat) (dst : Array UInt8) (d0 n i : Nat) (hd : d0 + n ≤ dst.size) :
-    (Fifo.blit src so dst d0 n)[i]?.getD 0 =
-      if d0 ≤ i ∧ i < d0 + n then src.getD (so + (i - d0)) 0 else dst[i]?.getD 0 := by
-  induction n generalizing so dst d0 with
-  | zero => simp [Fifo.blit]; omega
-  | succ k ih =>
-    simp only [Fifo.blit]
-    rw [ih (so + 1) (dst.setIfInBounds d0 (src.getD so 0)) (d0 + 1) (by simp; omega)]
-    by_cases h1 : d0 + 1 ≤ i ∧ i < d0 + 1 + k
-    · have h2 : d0 ≤ i ∧ i < d0 + (k + 1) := by omega
-      simp only [h1, h2, and_self, if_true]
-      congr 1; omega
-    · simp only [h1, if_false]
-      by_cases h3 : i = d0
-      · subst h3
-        have h2 : i ≤ i ∧ i < i + (k + 1) := by omega
-        simp only [h2, and_self, if_true, Nat.sub_self, Nat.add_zero]
-        rw [Array.getElem?_setIfInBounds_self_of_lt (by omega)]
-        rfl
-      · have h2 : ¬ (d0 ≤ i ∧ i < d0 + (k + 1)) := by omega
-        simp only [h2, if_false]
-        rw [Array.getElem?_setIfInBounds_ne (by omega)]
+/-- **C08_fifo_write_appends.**  `pseudo_tcp_fifo_write` accepts `min (n, free space)` bytes, appends exactly these bytes
+    behind the buffered data (logical positions `data .. data+c`) and changes no byte that was already buffered. -/
+theorem C08_fifo_write_appends (b b' : Fifo) (src : Array UInt8) (n c : Nat) (hb : FifoOk b) (hc : b.buf.size < 2 ^ 64)
+    (h : b.write src n = .ok (c, b')) :
+    c = min n (b.buf.size - b.data) ∧ b'.data = b.data + c ∧
+    (∀ i, i < b.data → byteAt b' i = byteAt b i) ∧ (∀ j, j < c → byteAt b' (b.data + j) = src.getD j 0) := by
+  have hd := hb.1
+  unfold Fifo.write at h
+  cases hw : b.writeOffset src 0 n 0 with
+  | error e => simp [hw, bind, Except.bind] at h
+  | ok v =>
+    obtain ⟨c1, b1⟩ := v
+    simp only [hw, bind, Except.bind, pure, Except.pure] at h
+    cases h
+    by_cases hfull : b.data + 0 < b.buf.size
+    · have ⟨hc1, hbytes⟩ := writeOffset_content hb hc hfull hw
+      have ⟨_, hsz, hdt, hrp⟩ := writeOffset_ok hb hw
+      have hba : ∀ i, byteAt { b1 with data := b1.data + c } i = byteAt b1 i := fun i => rfl
+      simp only [Nat.add_zero, Nat.sub_zero] at hc1 hbytes
+      refine ⟨hc1, by simp only; rw [hdt], ?_, ?_⟩
+      · intro i hi
+        rw [hba, hbytes i (by omega)]
+        have : ¬ (b.data ≤ i ∧ i < b.data + c) := by omega
+        simp only [this, if_false]
+      · intro j hj
+        rw [hba, hbytes (b.data + j) (by omega)]
+        have : b.data ≤ b.data + j ∧ b.data + j < b.data + c := by omega
+        simp only [this, and_self, if_true, Nat.zero_add, Nat.add_sub_cancel_left]
+    · -- ring full: nothing is accepted
+      unfold Fifo.writeOffset at hw
+      simp only [fault] at hw
+      have h0 : ¬ b.cap = 0 := by simp only [Fifo.cap]; have := hb.2; omega
+      have h1 : b.data + 0 ≥ b.cap := by simp only [Fifo.cap]; omega
+      simp only [h0, if_false, h1, if_true, pure, Except.pure] at hw
+      cases hw
+      refine ⟨by omega, rfl, fun i _ => rfl, fun j hj => by omega⟩
 
-example : (Fifo.blit #[1, 2, 3] 1 #[0, 0, 0, 0] 2 2)[3]?.getD 0 = 3 := by decide
+example : ∃ c b', (Fifo.init 4).write #[1, 2, 3, 4, 5, 6] 6 = .ok (c, b') := ⟨_, _, rfl⟩
+
+/-- **C08_fifo_read_takes.**  `pseudo_tcp_fifo_read` returns the oldest `min (n, data)` buffered bytes in order and
+    leaves the rest of the queue unchanged (every remaining byte moves `copy` positions towards the head). -/
+theorem C08_fifo_read_takes (b b' : Fifo) (n : Nat) (out : Array UInt8) (hb : FifoOk b) (hc : b.buf.size < 2 ^ 64)
+    (h : b.read n = .ok (out, b')) :
+    out.size = min n b.data ∧ (∀ j, j < out.size → out[j]?.getD 0 = byteAt b j) ∧
+    b'.data = b.data - out.size ∧ (∀ i, byteAt b' i = byteAt b (out.size + i)) := by
+  have hd := hb.1
+  have hr := hb.2
+  unfold Fifo.read at h
+  cases hro : b.readOffset n 0 n with
+  | error e => simp [hro, bind, Except.bind] at h
+  | ok o =>
+    simp only [hro, bind, Except.bind, pure, Except.pure] at h
+    cases h
+    have ⟨hs, hg⟩ := readOffset_content hb hc hro
+    simp only [Nat.sub_zero, Nat.zero_add] at hs hg
+    refine ⟨hs, hg, ?_, ?_⟩
+    · simp only; rw [gsub_of_le (by omega) (by omega)]
+    · intro i
+      simp only [byteAt, Fifo.cap]
+      congr 2
+      rw [Nat.add_mod, Nat.mod_mod, ← Nat.add_mod, Nat.add_assoc]
+
+example : ∃ o b', ({ Fifo.init 4 with data := 2 } : Fifo).read 3 = .ok (o, b') := ⟨_, _, rfl⟩
+
+/-- **C08_fifo_roundtrip.**  Bytes written into an empty-enough ring come back unchanged and in order: after a write of
+    `c` accepted bytes behind `d` buffered ones, a `read_offset` at offset `d` returns exactly these bytes. -/
+theorem C08_fifo_roundtrip (b b' : Fifo) (src : Array UInt8) (n c cap : Nat) (out : Array UInt8) (hb : FifoOk b)
+    (hc : b.buf.size < 2 ^ 64) (hw : b.write src n = .ok (c, b')) (hr : b'.readOffset c b.data cap = .ok out) :
+    out.size = c ∧ ∀ j, j < c → out[j]?.getD 0 = src.getD j 0 := by
+  have ⟨hcm, hdt, _, hnew⟩ := C08_fifo_write_appends b b' src n c hb hc hw
+  have ⟨hb', hsz⟩ := write_ok hb hc hw
+  have ⟨hs, hg⟩ := readOffset_content hb' (by rw [hsz]; exact hc) hr
+  have hsz' : out.size = c := by rw [hs, hdt]; omega
+  refine ⟨hsz', ?_⟩
+  intro j hj
+  rw [hg j (by omega), hnew j hj]
+
+/-- **C08_sender_payload_from_ring (S).**  Every data packet written by `packet` carries, after its 24-byte header,
+    exactly the `len` send-ring bytes at logical offset `offset` — the same bytes whatever was sent or acknowledged
+    before, and a retransmission of the same (offset, len) carries the same payload. -/
+theorem C08_sender_payload_from_ring (s s' : Sock) (seq : UInt32) (fl : UInt8) (off len now : UInt32) (r : WriteResult)
+    (hb : FifoOk s.sbuf) (hc : s.sbuf.buf.size < 2 ^ 64) (hlen : len ≠ 0)
+    (h : packet s seq fl off len now = .ok (r, s')) :
+    ∃ payload : Array UInt8,
+      s'.out = s.out.push (.packet (buildHeader s seq fl (s.rcv_wnd >>> s.rwnd_scale.toUInt32).toUInt16 now ++ payload)) ∧
+      payload.size = len.toNat ∧ ∀ j, j < len.toNat → payload[j]?.getD 0 = byteAt s.sbuf (off.toNat + j) := by
+  unfold packet at h
+  simp only [fault] at h
+  split at h
+  · cases h
+  · split at h
+    · cases h
+    · have hl : (len != 0) = true := by simpa using hlen
+      simp only [hl, if_true, bind, Except.bind] at h
+      cases hro : s.sbuf.readOffset len.toNat off.toNat (MAX_PACKET - HEADER_SIZE) with
+      | error e => simp [hro] at h
+      | ok bytes =>
+        simp only [hro] at h
+        have ⟨_, hg⟩ := readOffset_content hb hc hro
+        by_cases hsz : bytes.size = len.toNat
+        · have hne : (bytes.size != len.toNat) = false := by simp [hsz]
+          simp only [hne, Bool.false_eq_true, if_false, pure, Except.pure] at h
+          refine ⟨bytes, ?_, hsz, fun j hj => hg j (by omega)⟩
+          split at h <;> (cases h; rfl)
+        · have hne : (bytes.size != len.toNat) = true := by simp [hsz]
+          simp [hne] at h
+
+/-- **C08_receiver_store_keeps_committed_partial (R, first half).**  Storing a segment in the receive ring at any offset
+    — in order (`off = 0`) or out of order — changes no byte of the data that is already committed (readable), and puts
+    the accepted bytes at logical positions `data+off ..`; in-order bytes become readable through
+    `consume_write_buffer`, which only moves the `data_length` mark.
+    Missing for the full (R) `C08_receiver_prefix`: the ghost stream relating `rcv_nxt`, `rlist` and ring offsets across
+    `process` (trimming, rlist insertion / recovery). -/
+theorem C08_receiver_store_keeps_committed_partial (b b1 b2 : Fifo) (src : Array UInt8) (so n off c : Nat)
+    (hb : FifoOk b) (hc : b.buf.size < 2 ^ 64) (hoff : b.data + off < b.buf.size)
+    (hw : b.writeOffset src so n off = .ok (c, b1)) (hcw : b1.consumeWriteBuffer c = .ok b2) (h0 : off = 0) :
+    b2.data = b.data + c ∧ (∀ i, i < b.data → byteAt b2 i = byteAt b i) ∧
+    (∀ j, j < c → byteAt b2 (b.data + j) = src.getD (so + j) 0) := by
+  subst h0
+  have ⟨hc1, hbytes⟩ := writeOffset_content hb hc hoff hw
+  have ⟨hb1, hsz, hdt, hrp⟩ := writeOffset_ok hb hw
+  have ⟨_, hbuf, hd2⟩ := consumeWriteBuffer_ok hb1 (by rw [hsz]; exact hc) hcw
+  have hba : ∀ i, byteAt b2 i = byteAt b1 i := by
+    intro i
+    unfold Fifo.consumeWriteBuffer at hcw
+    simp only [fault] at hcw
+    split at hcw
+    · cases hcw
+    · cases hcw; rfl
+  have hd := hb.1
+  refine ⟨by rw [hd2, hdt], ?_, ?_⟩
+  · intro i hi
+    rw [hba, hbytes i (by omega)]
+    have : ¬ (b.data + 0 ≤ i ∧ i < b.data + 0 + c) := by omega
+    simp only [this, if_false]
+  · intro j hj
+    rw [hba, hbytes (b.data + j) (by omega)]
+    have : b.data + 0 ≤ b.data + j ∧ b.data + j < b.data + 0 + c := by omega
+    simp only [this, and_self, if_true]
+    congr 1; omega
+
+/-- out-of-order store (`off > 0`): committed data is untouched -/
+theorem C08_out_of_order_store_keeps_committed (b b1 : Fifo) (src : Array UInt8) (so n off c : Nat)
+    (hb : FifoOk b) (hc : b.buf.size < 2 ^ 64) (hoff : b.data + off < b.buf.size)
+    (hw : b.writeOffset src so n off = .ok (c, b1)) :
+    b1.data = b.data ∧ ∀ i, i < b.data → byteAt b1 i = byteAt b i := by
+  have ⟨_, hbytes⟩ := writeOffset_content hb hc hoff hw
+  have ⟨_, _, hdt, _⟩ := writeOffset_ok hb hw
+  have hd := hb.1
+  refine ⟨hdt, fun i hi => ?_⟩
+  rw [hbytes i (by omega)]
+  have : ¬ (b.data + off ≤ i ∧ i < b.data + off + c) := by omega
+  simp only [this, if_false]
+
+example : FifoOk (Fifo.init 8) ∧ (Fifo.init 8).data + 3 < (Fifo.init 8).buf.size :=
+  ⟨fifo_init_ok 8 (by decide), by decide⟩
+
+/-- **C08_eos_requires_in_sequence_fin.**  In ESTABLISHED the FIN state machine moves to CLOSE-WAIT (which is what makes
+    `recv` return 0 and `is_closed_remotely` true) only for a segment that is exactly in sequence, ends exactly at the
+    recorded FIN position and fits the free receive buffer completely. -/
+theorem C08_eos_requires_in_sequence_fin (s : Sock) (seg : Segment) :
+    (s.rcv_nxt != 0 && seg.seq == s.rcv_nxt && s.rcv_nxt + seg.len == s.rcv_fin &&
+      decide (seg.len.toNat ≤ s.rbuf.getWriteRemaining)) = true →
+    seg.seq = s.rcv_nxt ∧ s.rcv_nxt + seg.len = s.rcv_fin ∧ seg.len.toNat ≤ s.rbuf.getWriteRemaining := by
+  intro h
+  simp only [Bool.and_eq_true, beq_iff_eq, decide_eq_true_eq] at h
+  exact ⟨h.1.1.2, h.1.2, h.2⟩
 
 end Nice.Props.C08
